@@ -14,6 +14,7 @@ def run(ctx, rep):
             rep.fail(sig, case, detail)
         else:
             other[prop] = other.get(prop, 0) + 1
+    values(ctx, rep, other)
     rep.coverage_extra["failures_attributed_to_other_properties"] = other
     from . import strings
     for prop, sig, case, detail in strings.run_strings(ctx, rep):
@@ -22,3 +23,45 @@ def run(ctx, rep):
         else:
             other[prop] = other.get(prop, 0) + 1
     rep.coverage_extra["failures_attributed_to_other_properties"] = other
+
+
+def _load_value(job):
+    from .. import loaders
+    config, text = job
+    obs = loaders.load(config, text)
+    if obs["kind"] == "hang":
+        return "hang"
+    if obs["kind"] == "raise" and not obs["documented"]:
+        return "escape:" + obs["type"]
+    return None
+
+
+def values(ctx, rep, other):
+    """value-shaped inputs: every date/time text of the C14 boundary product and every single-edit mutation of the
+    classification lexicon, as the value of an assignment, in a sequence and in a set, under the 5 configurations"""
+    import os
+    from .. import tlc, loaders
+    from ..common import pool_map
+    from . import classify
+    p = os.path.join(ctx.scratch, "dt6.cfg")
+    with open(p, "w") as f:
+        f.write("SPECIFICATION Spec\nCONSTANT Emit = TRUE\nCONSTANT Full = FALSE\nINVARIANT EmitCase\nCHECK_DEADLOCK FALSE\n")
+    r = tlc.run("MC_DateTime", p, workers=16, scratch=ctx.scratch, xss="64m", timeout=3000)
+    rep.tlc("MC_DateTime texts as loader input", r)
+    words = {loaders.cps(c["text"]) for c in r.printed}
+    for w in classify.LEXICON:
+        words |= classify.mutations(w, "16-+.:#eETZ_a'")
+    words = sorted(w for w in words if w and not any(ch in " \t\n\r\v\f" for ch in w))
+    jobs = []
+    for w in words:
+        for config in loaders.CONFIGS:
+            jobs.append((config, "a = %s\nEND" % w))
+            jobs.append((config, "a = (1, %s) b = {%s}\n" % (w, w)))
+    res = pool_map(_load_value, jobs, chunksize=500)
+    for (config, text), out in zip(jobs, res):
+        rep.case("values/" + config, (config, text), True)
+        if out is None:
+            rep.traces_validated += 1
+        else:
+            rep.fail({"config": config, "locus": "value-shaped-input", "features": loaders.text_features(text), "observed": out},
+                     {"config": config, "text": text}, {})
